@@ -64,6 +64,7 @@ def containers(rng, pk, grid, thorough, keys=b""):
         out.append((f"pcapng-{tag}-tsoffset-then-tsresol9", ns.pcapng(pk, le=le, tsresol=9, tsoffset=off, offset_first=True), False))
         out.append((f"pcapng-{tag}-extra-options", ns.pcapng(pk, le=le, tsresol=rng.choice([None, 6, 9]), tsoffset=rng.choice([None, off]), offset_first=rng.random() < 0.5,
                                                              extra_opts=True, epb_opts=True), False))
+        out.append((f"pcapng-{tag}-section-length-stated", ns.pcapng(pk, le=le, seclen=True, extra_opts=rng.random() < 0.8, tsresol=rng.choice([None, 6])), False))
         if grid % 1000 == 0:
             out.append((f"pcapng-{tag}-tsoffset-then-tsresol3", ns.pcapng(pk, le=le, tsresol=3, tsoffset=off, offset_first=True, epb_opts=rng.random() < 0.5), False))
         if grid % 15625 == 0:
